@@ -53,8 +53,14 @@ class Spec:
     quick = {'runs': 1500, 'wall': 60}
     thorough = {'runs': 200000, 'wall': 600}
     per_run_timeout = 120
+    needs_numpy = False
     rule = ''
     assumptions = []
+    level = 'exploration'
+    level_text = ('seeded search over simulated multi-party runs (configuration x program x inputs x schedule/'
+                  'chunking/delay decisions) against a reference model; sampling, so evidence not proof')
+    level_note = ('trusts SimLoop/SimNet fidelity to asyncio+TCP, the independent reference interpreters, and '
+                  'that probabilistic protocol steps do not fail at k>=30 within the batch')
 
     def make_case(self, seed, tier):
         raise NotImplementedError
